@@ -94,3 +94,6 @@ def run(ctx):
     for name, b in methods.items():
         if name not in known and b.is_pub:
             ctx.note("wasm method %s has no library sibling (not a violation)" % name)
+    if ctx.tier == "thorough":
+        ctx.rule("VIEW-1", "every core function reachable from build() has an identical MIR dump in this view and in the default view")
+        binding.cross_view(ctx, "VIEW-1", lib)
